@@ -21,24 +21,26 @@ fill(chk, NOT_YET)
 
 # additions of rounds e / f (appended to the coverage text of the table)
 ADDED = {
+    "C01": " Also: single-particle configurations; N=3 with unequal first-generation weights at several concentrations; the relative-ESS boundary (threshold 1, equal weights); every replayed path starts from a cold memoisation state.",
+    "C04": " Also: sequences of the real moves on one tree object with every candidate density recomputed on a from-scratch rebuild; start trees named in pre-order; single-particle configurations.",
     "C02": " Also: trees built by the prune-regraft pattern (one subtree grafted into two candidates, the other edited); forests of 258-330 clones.",
-    "C03": " Also: a history assembled from two separately built and relabelled parts with overlapping clone names; mixed-scale data; trees of 258-330 clones.",
+    "C03": " Also: data sets mixing points with and without an outlier prior; forests with 102-150 top-level clones; a history assembled from two separately built and relabelled parts with overlapping clone names; mixed-scale data; trees of 258-330 clones.",
     "C05": " Also: cluster files that list mutations the loader drops (size = what the file lists); grids to 301.",
     "C08": " Also: data points with outlier prior 0 (no prior term) under an outlier-proposing kernel.",
-    "C09": " Also: the order the real whole-tree and subtree samplers hand to their conditional SMC pass (replayed up to the start of the pass): uniform over the compatible orders of the tree of the pass.",
+    "C09": " Also: log_pdf on trees with gaps in the internal node positions (after cutting / grafting / dictionary round trips); the order the real whole-tree and subtree samplers hand to their conditional SMC pass (replayed up to the start of the pass): uniform over the compatible orders of the tree of the pass.",
     "C10": " Also: the same Tree object summarised three times (last answer examined); the call must leave the tree's digest unchanged; trees of 258-330 clones.",
-    "C11": " Also: traces of 700-1100 entries per chain with 270-330 distinct topologies; traces in which every record of one topology scores minus infinity.",
+    "C11": " Also: non-ASCII identifiers; top-trees cuts at 2..101 on long traces; traces of 700-1100 entries per chain with 270-330 distinct topologies; traces in which every record of one topology scores minus infinity.",
     "C12": " Also: traces split exactly half and half between conflicting topologies (consensus must complete); trees of 258-330 clones.",
-    "C13": " Also: the value handed to sample() must be the concentration in force before the update; n up to 3e5.",
-    "C14": " Also: histories of 6000-20000 distinct argument lists with 2-4 children (eviction, re-request, cached pairwise results fed back, occasional clears).",
+    "C13": " Also: long-lived sampler objects that served other (K, n) before; the value handed to sample() must be the concentration in force before the update; n up to 3e5.",
+    "C14": " Also: every other cache found in the package is cleared before a reference is computed; a parent particle whose tree is re-assigned between two uses; histories of 6000-20000 distinct argument lists with 2-4 children (eviction, re-request, cached pairwise results fed back, occasional clears).",
     "C15": " Also: restored copies parked untouched and re-compared after later restorations; a dictionary must not change when the tree it was taken from is edited; all entries of a run trace restored before any is examined; histories on trees of 258-330 clones.",
     "C16": " Also: pre-clustered traces (some with a cluster that has no data point) through C12's table oracle; traces of 270-400 entries.",
-    "C17": " Also: identifiers with parser-significant characters and names that spell missing-value tokens (NA, null, None ...); tables of 270-330 mutations.",
-    "C18": " Also: run seeds 0 and 2^32+5.",
+    "C17": " Also: per-row tumour content, columns in any order, CRLF, minimal / shuffled cluster files, inconsistent copy numbers in dropped mutations; identifiers with parser-significant characters and names that spell missing-value tokens (NA, null, None ...); tables of 270-330 mutations.",
+    "C18": " Also: run seeds 0 and 2^32+5; assertions off (PYTHONOPTIMIZE); chains of one run executed one after another in one process in several orders; the same seeded many-clone chain three times in one process.",
     "C19": " Also: loss-probability options (assigned with / without chrom column, user column, low / high values), print frequency, 300 iterations or particles on tiny inputs, 300 subtree-only iterations over shallow data at concentration 20 / 100.",
-    "C20": " Also: the complete file is read successfully at the very path that is then cut short; a prefix counts as complete only if it decompresses independently to the whole pickled content.",
-    "C06": " Histories also start from trees of 258-330 clones.",
-    "C07": " Histories also start from trees of 258-330 clones.",
+    "C20": " Also: all three summary commands on whatever a failed write leaves (its chains and entries read by the harness must be those of the complete run); cumulative fault position over all writes of a pre-clustered run; the complete file is read successfully at the very path that is then cut short; a prefix counts as complete only if it decompresses independently to the whole pickled content.",
+    "C06": " Histories also start from trees of 258-330 clones, include the two-step clone creation with the state in between, run partly with assertions off (python -O); the edited tree must hold the assignment it was given.",
+    "C07": " Histories also start from trees of 258-330 clones; shards of the histories and sampler calls run with assertions off (python -O, icontract conditions forced on).",
 }
 for _pid, _txt in ADDED.items():
     CHECKS[_pid]["text"] += _txt
